@@ -1,4 +1,5 @@
 import ScVerif.C12.LinLemmas
+import ScVerif.C12.WaitLemmas
 /-!
 # C12 — property theorems, concurrent Add / Remove / Has / Get
 
@@ -110,6 +111,34 @@ example :
       (LConf.start [] 0 0 [[.get "n", .remove "n"], [.add "n" 1, .has "n"]]) [0, 0, 0, 1, 1, 0, 1, 0, 0]
     c.ths.map (·.results) = [[.got 1 .registered, .prev (some 1)], [.prev none, .bool true]] ∧
       c.st.log = [⟨"n", none, some 1, false⟩, ⟨"n", some 1, none, false⟩] ∧ c.st.reg.get "n" = none := by
+  decide
+
+/-- **Every operation returns, whatever the others do (wait-freedom).**  Under every schedule of
+concurrent Add / Remove / Has / Get programs: a thread that has been scheduled at least five times per
+operation of its program has finished the program — no operation ever waits for another thread, for a
+callback of another thread to return, or for a registry state; an Add or Remove takes at most two of
+its own steps (lock section, callback), a Get at most five (read, fallback, factory, put-if-absent,
+callback).  In particular a thread parked inside its own `onChange` callback delays nobody else. -/
+theorem C12_operations_wait_free (cfg : Cfg) (reg0 : Reg) (k1 k2 : Nat) (progs : List (List Op))
+    (sched : List Nat) (t : Nat) (p : List Op) (hp : progs[t]? = some p)
+    (hfair : 5 * p.length ≤ sched.count t) :
+    ∃ th, (lrun cfg (LConf.start reg0 k1 k2 progs) sched).ths[t]? = some th ∧ th.prog = [] ∧ th.pc = .idle := by
+  have h0 : (LConf.start reg0 k1 k2 progs).ths[t]? = some ⟨p, .idle, [], []⟩ := by
+    simp [LConf.start, hp]
+  obtain ⟨th, h1, h2⟩ := lrun_rank cfg sched _ t _ h0
+  have hz : th.rank = 0 := by
+    have h3 : (⟨p, .idle, [], []⟩ : LThread).rank = 5 * p.length := by simp [LThread.rank, LPC.rank]
+    rw [h3] at h2
+    omega
+  exact ⟨th, h1, (rank_zero_iff th).mp hz⟩
+
+/-- The bound is attained: a Get that goes all the way (miss, fallback supplies nothing, factory,
+put-if-absent, callback) needs its five steps — after four it is still owed its callback. -/
+example :
+    let cfg : Cfg := ⟨some fun _ _ => ⟨none, false⟩, some fun _ k => ⟨some (1000 + k), false⟩⟩
+    ((lrun cfg (LConf.start [] 0 0 [[.get "n"]]) [0, 0, 0, 0]).ths.map (·.pc)) =
+        [.notify ⟨"n", none, some 1000, true⟩ (.got 1000 .factory)] ∧
+      ((lrun cfg (LConf.start [] 0 0 [[.get "n"]]) [0, 0, 0, 0, 0]).ths.map (·.pc)) = [.idle] := by
   decide
 
 end ScVerif.C12
